@@ -15,6 +15,7 @@ RULE = (
     "The index is applied to the dense reference first: only indices torch accepts are kept. Non-trivial: index not all-':' and "
     "operator not a bare Dense. Distinct by (class path, index kind per position, debug flag) - i.e. cells, not examples."
 )
+FUZZ = {"workers": 8, "runs": 3000}  # Atheris campaigns in the thorough tier (DESIGN section 5)
 BUDGET = {"quick": 1800, "thorough": 6000}
 ASSUMPTIONS = [
     "boolean masks, None and negative steps are not generated (not in the statement / rejected by torch)",
